@@ -99,6 +99,17 @@ def scenarios(tier):
     S.append(("wm=64,sb=1,w=8:send-error", dict(pre=one, workers=1, window=10, drains=[None], fault_menu=[22, -1], fault_sites=["send"], adj=dict(outbuf_high_watermark=64, send_bytes=1), programs=prog(8, 4)), 1 if q else 2))
     # two buffers pending while the producer is parked: a flush that drains below the mark and then fails
     S.append(("wm=150,sb=1,w=8x5:send-error", dict(pre=one, workers=1, window=10, drains=[None], fault_menu=[22, -1], fault_sites=["send"], adj=dict(outbuf_high_watermark=150, send_bytes=1), programs=prog(8, 5)), 1 if q else 2))
+    # a backlog above the mark is left when a request ends and the next one is already queued (lookahead)
+    two = (c04.req(1) + c04.req(2)).decode("latin-1")
+    for la in (1, 2):
+        S.append((f"two-requests,la={la},wm=8:drain", dict(pre=two, workers=1, lookahead=la, window=10, drains=[30, None], adj=dict(outbuf_high_watermark=8, send_bytes=1),
+                  programs={"/r1": dict(body=["a" * 8, "b" * 8], cl=True), "/r2": dict(body=["c" * 8], cl=True)}), 1 if q else 2))
+    # ... and the backlog is exactly one write (the head of a body-less response): the pause happens in service(), not in write_soon()
+    S.append(("two-requests,first=empty-body,la=1,wm=8:drain", dict(pre=two, workers=1, lookahead=1, window=10, drains=[30, None], adj=dict(outbuf_high_watermark=8, send_bytes=1),
+              programs={"/r1": dict(body=[], cl=True), "/r2": dict(body=["c" * 8], cl=True)}), 1 if q else 2))
+    # the application has written through write() and is still working when the client starts reading again
+    S.append(("two-requests,first=write()-then-blocks,la=1,wm=8", dict(pre=two, workers=1, lookahead=1, window=10, segments=[("@drain:None", None), ("@release:go", None)], adj=dict(outbuf_high_watermark=8, send_bytes=1),
+              programs={"/r1": dict(body=[""], cl=True, write_first=True, block="go"), "/r2": dict(body=["c" * 8], cl=True)}), 2))
     S.append(("wm=8,sb=1,w=8:drain,poll2", dict(pre=one, workers=1, window=10, drains=[13, None], poll2=True, adj=dict(outbuf_high_watermark=8, send_bytes=1), programs=prog(8, 3)), 1 if q else 2))
     S.append(("wm=8,sb=1,w=8:eof", dict(pre=one, workers=1, window=10, drains=[13, "eof"], adj=dict(outbuf_high_watermark=8, send_bytes=1), programs=prog(8, 3)), 1 if q else 2))
     S.append(("wm=8,sb=1,w=8:drain,bound2", dict(pre=one, workers=1, window=10, drains=[13, None], adj=dict(outbuf_high_watermark=8, send_bytes=1), programs=prog(8, 2)), 2))
